@@ -10,7 +10,7 @@ import (
 )
 
 // single-line programs with places where the grammar accepts a line break:
-// after a comma inside [] () {}, after a binary operator, after a pipe
+// after a comma inside [] () {}, after a binary operator, after a pipe, after the dot of an attribute access
 var c20BreakTemplates = []string{
 	"l := [1, 2, 3]",
 	"f(a, b, c)",
@@ -31,12 +31,18 @@ var c20BreakTemplates = []string{
 	"t := a % b ** c",
 	"u := a << b >> c & d",
 	"v := a <= b != c",
+	"w := s.to_upper().trim_space().split(d)",
+	"a.b.c = d.e",
+	"o := l.map(f).filter(g)",
 }
 
 func isBreakable(src string, i int) bool {
 	c := src[i]
 	switch c {
 	case ',':
+		return true
+	case '.':
+		// attribute access / method chain (no floats in the templates)
 		return true
 	case '|':
 		// pipe or '||' (break after the second '|')
